@@ -54,7 +54,12 @@ Schema(ovs) == [map |-> ConcatMaps(ovs, 1), style |-> PickParam(ovs, "style", 1)
                 extra_out |-> PickParam(ovs, "extra_out", 1)]
 
 (* ------------------------------ key and path of a field ----------------------------- *)
-\* shape = sequence of fields  [id, req, ty, dfl]     (position = order of definition)
+\* shape = sequence of fields  [id, req, ty, oreq, hasdfl]     (position = order of definition)
+\*   req     required on input (no default / Required key)        oreq    the accessor cannot fail (everything but optional TypedDict keys)
+\*   hasdfl  a default is declared (never for TypedDict keys)
+\*   ctordfl the constructor itself applies the declared default to a parameter it is not given (not SQLAlchemy: column defaults
+\*           are applied when the row is flushed, the attribute reads None until then)
+\* see Kinds.tla for how each model kind declares a logical field
 \* map entry  [sel |-> selector, spec |-> [t |-> "path", p |-> <<key | Ell ...>>] | [t |-> "none"]]
 Key(sch, i, f) == IF sch.aslist THEN IdxKey(i - 1) ELSE GenKey(f.id, sch.trim, sch.style)
 MapHits(sch, f) == {n \in 1..Len(sch.map) : Sel(sch.map[n].sel, f.id)}
@@ -112,6 +117,7 @@ BadV(i)  == [c |-> "atom", a |-> "bad", f |-> i]
 NoneV    == [c |-> "atom", a |-> "none", f |-> 0]
 XtraV(n) == [c |-> "atom", a |-> "xtra", f |-> n]
 DflV(i)  == [c |-> "atom", a |-> "dfl", f |-> i]      \* the declared default of field i
+AbsentV  == [c |-> "atom", a |-> "absent", f |-> 0]    \* the field is not there at all (a TypedDict key that is not required)
 Dict(ks, vs) == [c |-> "dict", ks |-> ks, vs |-> vs, xs |-> <<>>]
 List(xs) == [c |-> "list", ks |-> <<>>, vs |-> <<>>, xs |-> xs]
 Atomic(d) == d.c = "atom"
@@ -183,12 +189,17 @@ LoadModel(sch, shape, d) ==
             obj |-> [i \in 1..Len(shape) |->
                        IF i \in fromData THEN (CHOOSE v \in r.vals : v[1] = i)[2]
                        ELSE IF IsExtraTarget(sch.extra_in, i) THEN [c |-> "atom", a |-> "extras", f |-> 0]
-                       ELSE DflV(i)],
+                       \* in the layout but not in the data: the loader supplies the declared default itself;
+                       \* not in the layout (skipped): nothing is passed and the constructor decides
+                       ELSE IF ~shape[i].hasdfl THEN AbsentV
+                       ELSE IF i \in Live(ps) \/ shape[i].ctordfl THEN DflV(i) ELSE NoneV],
             extra |-> r.extra]
 
 \* ---- dumping ------------------------------------------------------------------------------
 \* obj = sequence of field values (GoodV(i) or DflV(i)); "Values that are equal to default, will be stripped"
-Omitted(sch, shape, obj, i) == ~shape[i].req /\ Sel(sch.omit, shape[i].id) /\ obj[i] = DflV(i)
+\* an output-optional field (oreq = FALSE) that is absent from the object is left out whatever omit_default says
+Omitted(sch, shape, obj, i) == \/ ~shape[i].req /\ shape[i].hasdfl /\ Sel(sch.omit, shape[i].id) /\ obj[i] = DflV(i)
+                               \/ obj[i] = AbsentV
 RECURSIVE DumpAt(_, _, _, _, _)
 DumpAt(sch, shape, ps, obj, pre) ==
   LET PS == PathSet(ps)
@@ -205,6 +216,9 @@ DumpAt(sch, shape, ps, obj, pre) ==
            ks == SetToSeqK(keep)
        IN Dict(ks, [m \in 1..Len(ks) |-> LET here == FieldAt(ps, Append(pre, ks[m])) IN
                                          IF here # {} THEN obj[CHOOSE x \in here : TRUE] ELSE DumpAt(sch, shape, ps, obj, Append(pre, ks[m]))])
+\* a field value its own dumper refuses (BadV) makes the whole dump fail - in every debug mode - unless the field is not dumped at all
+DumpFails(sch, shape, obj) == LET ps == Paths(sch, shape, "out") IN
+                              \E i \in Live(ps) : obj[i] = BadV(i) /\ ~Omitted(sch, shape, obj, i)
 \* "Dumper of this field must return a mapping that will be merged with dict of dumped representation" / extractor likewise.
 \* The extra mapping of the test objects is {u1: xtra 1}.
 DumpModel(sch, shape, obj) ==
